@@ -184,7 +184,7 @@ def universe_for(r, page, tier):
     return r.choice([300, 700, 1500 if tier == "thorough" else 1100])
 
 
-def gen_history(r, page, tier, flags="-", walks=True, nops=None, allow_oracle=True, prefill=None):
+def gen_history(r, page, tier, flags="-", walks=True, nops=None, allow_oracle=True, prefill=None, oracle_p=0.12):
     """one random history: phases biased to grow / shrink / churn; patterns ascending / descending / random"""
     u = universe_for(r, page, tier)
     h = Hist(r, page, flags)
@@ -197,7 +197,7 @@ def gen_history(r, page, tier, flags="-", walks=True, nops=None, allow_oracle=Tr
     if page == 128 and u > 120:
         nops = r.choice([300, 500])
     walk_every = 1 if (u <= 130 and walks) else max(1, u // 40)
-    use_oracle = allow_oracle and r.random() < 0.12
+    use_oracle = allow_oracle and r.random() < oracle_p
     phase, left = None, 0
     if prefill is None:
         prefill = 0
